@@ -133,6 +133,13 @@ func (a *HypAttributes) Validate() error {
 		return errors.New("gas limit must be set and cannot be negative")
 	}
 
+	// The interchain gas paymaster multiplies the gas limit by the gas price and the token
+	// exchange rate of the destination without checking for overflows, and panics when
+	// the result needs more than 256 bits.
+	if !a.GasLimit.IsUint64() {
+		return errors.New("gas limit must fit in 64 bits")
+	}
+
 	if err := a.MaxFee.Validate(); err != nil {
 		return fmt.Errorf("invalid max fee: %w", err)
 	}
